@@ -1505,12 +1505,11 @@ func (p *Parser) evaluateFunctionDefinition(ctx context) (Statement, error) {
 				// TODO: Add token position to errors to raise clearer error messages.
 				if lastStatement == nil || lastStatement.StatementType() != STATEMENT_TYPE_RETURN {
 					errTemp = fmt.Errorf(`function "%s" requires a return statement at the end of the block`, name)
-				} else if returnStatement := lastStatement.(Return); len(returnStatement.Values()) != len(returnTypes) {
-					errTemp = fmt.Errorf(`function "%s" requires %d return values but returns %d`, name, len(returnTypes), len(returnStatement.Values()))
+				} else if returnValueTypes := lastStatement.(Return).ValueTypes(); len(returnValueTypes) != len(returnTypes) {
+					errTemp = fmt.Errorf(`function "%s" requires %d return values but returns %d`, name, len(returnTypes), len(returnValueTypes))
 				} else {
-					for i, returnValue := range returnStatement.Values() {
+					for i, returnValueType := range returnValueTypes {
 						returnType := returnTypes[i]
-						returnValueType := returnValue.ValueType()
 
 						if !returnValueType.Equals(returnType) {
 							errTemp = fmt.Errorf(`function "%s" returns %s but expects %s`, name, returnValueType.String(), returnType.String())
